@@ -64,7 +64,7 @@ class Runner:
                 d = cls.create(path)
             else:
                 src = {k: rng.randbytes(rng.randint(0, 6)) for k in rng.sample(UNIVERSE, rng.randint(0, 5))}
-                self.trace.append(["from_dict", sorted(k.hex() for k in src)])
+                self.trace.append(["from_dict", {k.hex(): v.hex() for k, v in src.items()}])
                 d = cls.from_dict(src, path)
                 model = dict(src)
                 # later mutation of the source must not leak into the persistent dict
@@ -315,7 +315,81 @@ def run_shard(spec, acc, ctx):
 
 
 def replay(case, acc, ctx):
-    acc.note("C20 replay files carry the operation trace for reading; re-run the check with the same VERIF_SEED")
+    """Re-executes the recorded operation trace literally against the real class and a plain dict."""
+    import ast
+    import data_persistence.persistent_dict as pd
+    cls = getattr(pd, case["cls"])
+    ops = case["ops"]
+    path = os.path.join(ctx.tmpdir("replay"), "d")
+    model, d = {}, None
+
+    def diverged(step, what):
+        acc.violation(f"{case['cls']}:replay-diverged", f"step {step} {ops[step][:2]}: {what}",
+                      {"cls": case["cls"], "ops": ops[:step + 1]})
+
+    for step, op in enumerate(ops):
+        kind = op[0]
+        try:
+            if kind == "create":
+                d = cls.create(path)
+            elif kind == "from_dict":
+                src = {bytes.fromhex(k): bytes.fromhex(v) for k, v in op[1].items()}
+                d = cls.from_dict(src, path)
+                model = dict(src)
+                src[b"added-later"] = b"x"
+            elif kind == "set":
+                d[bytes.fromhex(op[1])] = bytes.fromhex(op[2])
+                model[bytes.fromhex(op[1])] = bytes.fromhex(op[2])
+            elif kind == "set-nonbytes":
+                try:
+                    d[bytes.fromhex(op[1])] = ast.literal_eval(op[2])
+                    return diverged(step, "non-bytes value accepted")
+                except TypeError:
+                    pass
+            elif kind == "get":
+                k = bytes.fromhex(op[1])
+                try:
+                    if d[k] != model.get(k, object()):
+                        return diverged(step, "get differs")
+                except KeyError:
+                    if k in model:
+                        return diverged(step, "KeyError for a present key")
+            elif kind == "del":
+                k = bytes.fromhex(op[1])
+                try:
+                    del d[k]
+                    if k not in model:
+                        return diverged(step, "deleting a missing key did not raise")
+                    del model[k]
+                except KeyError:
+                    if k in model:
+                        return diverged(step, "KeyError for a present key")
+            elif kind in ("in", "len", "iter", "getd"):
+                k = bytes.fromhex(op[1])
+                if (k in d) != (k in model) or len(d) != len(model) or sorted(d) != sorted(model) or \
+                        d.get(k, None) != model.get(k, None):
+                    return diverged(step, "observation differs")
+            elif kind == "clear":
+                d.clear()
+                model.clear()
+            elif kind == "sync":
+                d.sync()
+            elif kind in ("close+open", "final close+open") or kind.startswith("close;"):
+                d.close()
+                d = cls.open(path)
+            elif kind.startswith("create over existing"):
+                d.sync()
+                try:
+                    cls.create(path)
+                    return diverged(step, "create over an existing file accepted")
+                except FileExistsError:
+                    pass
+            if d is not None and {k: d[k] for k in list(d)} != model:
+                return diverged(step, "contents differ from the model after this step")
+        except Exception as e:
+            return diverged(step, f"raised {type(e).__name__}: {e}")
+    if d is not None:
+        d.close()
     acc.count("replayed")
 
 
